@@ -10,8 +10,9 @@
    2. c14o_mon  OUT endpoints (USBStreamOutEndpoint), over packed words of the target of props/C14.py whose third output is
                 the module's `expected_data_toggle` register.  Success = the device ACKs a data packet whose PID is the
                 expected one (new data).  Observed: the register itself, plus the ACK-without-accept answer to a repeated PID.
-   3. c14d_mon  the decode in StandardRequestHandler (request/standard.py): while a CLEAR_FEATURE request is being handled, the
-                host's ACK produces the strobe (enable, direction = wIndex[7], number = wIndex[3:0]); no strobe otherwise. *)
+   3. c14d_mon  the decode in StandardRequestHandler (request/standard.py): a host ACK while the most recent SETUP packet is a
+                not yet completed CLEAR_FEATURE(ENDPOINT_HALT, recipient endpoint) produces the strobe (enable,
+                direction = wIndex[7], number = wIndex[3:0]); no strobe otherwise. *)
 From Coq Require Import NArith List Bool Arith.
 Import ListNotations.
 From LunaLib Require Import Netlist Machine.
@@ -118,11 +119,14 @@ End OutToggle.
       status_requested 2, data_requested 3, tx.ready 4, setup.is_in_request 5, setup.type 6..7, setup.recipient 8..12,
       setup.request 13..20, setup.value 21..36, setup.index 37..52, setup.length 53..68.
       Output word: clear_endpoint_halt (enable 0, direction 1, number 2..5), handshakes_out.stall 6, tx.valid 7.
-      Monitor state: 1 = a CLEAR_FEATURE request is being handled.
+      Monitor state: 1 = the most recent SETUP packet is a CLEAR_FEATURE(ENDPOINT_HALT) addressed to an endpoint and that
+      request has not been completed yet.
 
-      Environment: the control requests of the history are standard CLEAR_FEATURE(ENDPOINT_HALT) requests to an endpoint
-      (C14's quantifier: "transactions and CLEAR_FEATURE(ENDPOINT_HALT) requests"); what the handler does with other
-      requests is C07/C08's subject. *)
+      THE RULE: the strobe fires exactly on a host ACK while such a request is pending; then direction = wIndex[7] and
+      number = wIndex[3:0]; it is all-zero in every other cycle.  Every new SETUP packet replaces the pending request
+      (whatever state the previous one was in); any other request -- another standard request, CLEAR_FEATURE with another
+      feature selector or recipient -- leaves nothing pending.  While the latched request is not a standard one
+      (setup.type <> 0) the handler is inert: no strobe, nothing changes.  No environment assumption. *)
 Definition d_received (i : N) := N.testbit i 0.
 Definition d_ack (i : N) := N.testbit i 1.
 Definition d_type (i : N) := bits i 6 2.
@@ -131,14 +135,15 @@ Definition d_request (i : N) := bits i 13 8.
 Definition d_value (i : N) := bits i 21 16.
 Definition d_index (i : N) := bits i 37 16.
 
-Definition c14d_env (i : N) : bool :=
-  (d_type i =? 0) && (d_request i =? 1)          (* standard request, CLEAR_FEATURE *)
-  && (d_value i =? 0) && (d_recipient i =? 2).  (* feature ENDPOINT_HALT, recipient endpoint *)
+(* standard request, CLEAR_FEATURE, feature ENDPOINT_HALT, recipient endpoint *)
+Definition d_clear_halt (i : N) : bool := (d_request i =? 1) && (d_value i =? 0) && (d_recipient i =? 2).
 
 Definition c14d_mon (m i o : N) : option (N * bool) :=
-  if negb (c14d_env i) then None else
+  let std := d_type i =? 0 in
   let enable := N.testbit o 0 in
-  let fire := (m =? 1) && d_ack i in       (* the host's ACK while the CLEAR_FEATURE request is being handled *)
+  let fire := std && (m =? 1) && d_ack i in      (* the host's ACK while the CLEAR_FEATURE(ENDPOINT_HALT) request is pending *)
   let ok := Bool.eqb enable fire
             && (bits o 1 5 =? (if fire then bits (d_index i) 7 1 + 2 * bits (d_index i) 0 4 else 0)) in
-  Some ((if fire then 0 else if (m =? 0) && d_received i then 1 else m), ok).
+  Some ((if negb std then m
+         else if d_received i then (if d_clear_halt i then 1 else 0)
+         else if fire then 0 else m), ok).
